@@ -55,7 +55,12 @@ func (rs *requestStream) Read(p []byte) (int, error) {
 			}
 			if chunkSize == 0 {
 				err = rs.header.ReadTrailer(rs.reader)
-				if err != nil && err != io.EOF {
+				if err != nil {
+					if err == io.EOF {
+						// The trailer section has no end: what was read of
+						// it is still in the reader and is not a message.
+						err = io.ErrUnexpectedEOF
+					}
 					return 0, err
 				}
 				rs.chunkedEOF = true
